@@ -967,7 +967,7 @@ func (u *Unit) isParam(v *types.Var) bool {
 			return true
 		}
 	}
-	return false
+	return sig.Recv() != nil && sig.Recv() == v
 }
 
 func methodConst(u *Unit, name string) Term {
